@@ -6,7 +6,7 @@
 #define _GNU_SOURCE
 #include "common.h"
 
-static unsigned char sb[1 << 12];
+static __thread unsigned char sb[1 << 12];
 static size_t unhexs(const char *s, unsigned char *buf, size_t cap)
 {
   size_t n = 0; if (s[0] == 'x' && s[1] == ':') s += 2;
